@@ -140,6 +140,9 @@ func (e *evidence) add(rec *record) {
 	if st.SyncPoints > 0 {
 		e.faults["syncpoint-runs"]++
 	}
+	if sc.Sched.WritePreempt > 0 && st.Switches > 0 {
+		e.faults["preempt-before-write"]++
+	}
 	e.syncedWrites += st.SyncedGlobalWrites
 	e.touches += st.Touches
 	failops, scribbles, handoff := 0, 0, false
